@@ -10,7 +10,8 @@ import time
 ROOT = os.path.dirname(os.path.dirname(os.path.abspath(__file__)))
 REPO = os.environ.get("SIGPY_REPO", "/repo")
 WORK = os.path.join(ROOT, ".work")
-EVID = os.path.join(ROOT, "evidence")
+# evidence describes runs on the tree under /repo; runs redirected to a scratch copy (seeded changes, mutants: SIGPY_REPO) keep theirs apart
+EVID = os.path.join(ROOT, "evidence") if os.path.realpath(REPO) == "/repo" else os.path.join(WORK, "evidence_scratch_tree")
 FINDINGS_FILE = os.path.join(ROOT, "known_findings.json")
 GUARD = "SIGPY_VERIF_TRACE"
 
